@@ -156,19 +156,19 @@ package primitive
 //@ func WriteString
 //@   prop C03
 //@   assigns wstream(dest)
-//@   ensures len: result == nil ==> Z(written(dest)) == Z(old(written(dest))) + Z(LengthOfString(s))
+//@   ensures len: result == nil ==> written(dest) == old(written(dest)) + LengthOfString(s)
 //@ func WriteLongString
 //@   prop C03
 //@   assigns wstream(dest)
-//@   ensures len: result == nil ==> Z(written(dest)) == Z(old(written(dest))) + Z(LengthOfLongString(s))
+//@   ensures len: result == nil ==> written(dest) == old(written(dest)) + LengthOfLongString(s)
 //@ func WriteBytes
 //@   prop C03
 //@   assigns wstream(dest)
-//@   ensures len: result == nil ==> Z(written(dest)) == Z(old(written(dest))) + Z(LengthOfBytes(b))
+//@   ensures len: result == nil ==> written(dest) == old(written(dest)) + LengthOfBytes(b)
 //@ func WriteShortBytes
 //@   prop C03
 //@   assigns wstream(dest)
-//@   ensures len: result == nil ==> Z(written(dest)) == Z(old(written(dest))) + Z(LengthOfShortBytes(b))
+//@   ensures len: result == nil ==> written(dest) == old(written(dest)) + LengthOfShortBytes(b)
 //@ func WriteUuid
 //@   prop C03
 //@   nilable uuid
@@ -177,17 +177,17 @@ package primitive
 //@ func WriteInetAddr
 //@   prop C03
 //@   assigns wstream(dest)
-//@   ensures len: result == nil ==> Z(written(dest)) == Z(old(written(dest))) + Z(LengthOfInetAddr(inetAddr))
+//@   ensures len: result == nil ==> written(dest) == old(written(dest)) + LengthOfInetAddr(inetAddr)
 //@ func WriteInet
 //@   prop C03
 //@   nilable inet
 //@   assigns wstream(dest)
-//@   ensures len: result == nil ==> Z(written(dest)) == Z(old(written(dest))) + Z(LengthOfInet(inet))
+//@   ensures len: result == nil ==> written(dest) == old(written(dest)) + LengthOfInet(inet)
 //@ func WriteValue
 //@   prop C03
 //@   nilable value
 //@   assigns wstream(dest)
-//@   ensures len: result == nil ==> Z(written(dest)) == Z(old(written(dest))) + Z(LengthOfValue(value))
+//@   ensures len: result == nil ==> written(dest) == old(written(dest)) + LengthOfValue(value)
 //@ func WriteStreamId
 //@   prop C03
 //@   assigns wstream(dest)
@@ -197,11 +197,11 @@ package primitive
 //@ func WriteUnsignedVint
 //@   prop C03
 //@   assigns wstream(dest)
-//@   ensures len: err == nil ==> Z(written(dest)) == Z(old(written(dest))) + Z(LengthOfUnsignedVint(v)) && Z(written) == Z(LengthOfUnsignedVint(v))
+//@   ensures len: err == nil ==> written(dest) == old(written(dest)) + LengthOfUnsignedVint(v) && written == LengthOfUnsignedVint(v)
 //@ func WriteVint
 //@   prop C03
 //@   assigns wstream(dest)
-//@   ensures len: err == nil ==> Z(written(dest)) == Z(old(written(dest))) + Z(LengthOfVint(v)) && Z(written) == Z(LengthOfVint(v))
+//@   ensures len: err == nil ==> written(dest) == old(written(dest)) + LengthOfVint(v) && written == LengthOfVint(v)
 
 // collections: both the writer loop and the length loop compute  2 + sum of the elements' lengths
 
@@ -239,3 +239,27 @@ package primitive
 //@   prop C03
 //@   assigns nothing
 //@   assumes len: result == abstractLen("bytesmap", m)
+//@ func WriteNamedValues
+//@   prop C03
+//@   assigns wstream(dest)
+//@   assumes len: result == nil ==> written(dest) == old(written(dest)) + abstractLen("namedvalues", values)
+//@ func LengthOfNamedValues
+//@   prop C03
+//@   assigns nothing
+//@   assumes len: err == nil ==> length == abstractLen("namedvalues", values)
+//@ func WriteStringMap
+//@   prop C03
+//@   assigns wstream(dest)
+//@   assumes len: result == nil ==> written(dest) == old(written(dest)) + abstractLen("stringmap", m)
+//@ func LengthOfStringMap
+//@   prop C03
+//@   assigns nothing
+//@   assumes len: result == abstractLen("stringmap", m)
+//@ func WriteStringMultiMap
+//@   prop C03
+//@   assigns wstream(dest)
+//@   assumes len: result == nil ==> written(dest) == old(written(dest)) + abstractLen("stringmultimap", m)
+//@ func LengthOfStringMultiMap
+//@   prop C03
+//@   assigns nothing
+//@   assumes len: result == abstractLen("stringmultimap", m)
